@@ -16,6 +16,21 @@ def hook_commits():
     return [l.split()[0] for l in out.splitlines() if ' verif hook:' in l]
 
 
+def technique_of(P):
+    parts = []
+    if P.get('verus'):
+        parts.append('contract-based deductive verification: Verus contracts (requires/ensures/invariants, spec functions, lemmas) '
+                     'on functions extracted mechanically from /repo on every run (%d units)' % len(set(v['unit'] for v in P['verus'])))
+    k = P.get('kani', [])
+    if any(x.get('kind') == 'complete' for x in k):
+        parts.append('Kani loop-free / type-bounded full-domain harnesses on the real crate (complete)')
+    if any(x.get('kind') == 'bounded' for x in k) or P.get('fallback_kani'):
+        parts.append('bounded Kani harnesses (labelled bounded, never counted as proof)')
+    if P.get('native'):
+        parts.append('native bounded stand-ins through the public API (decide violations only, with a concrete replayable input)')
+    return '; '.join(parts)
+
+
 def main():
     all_ids = [json.loads(l)['id'] for l in open(os.path.join(VERIF, 'properties.jsonl'))]
     checks = []
@@ -33,7 +48,7 @@ def main():
             'level_claimed': {'category': props.norm_level(P.get('level', 'proof')), 'text': P['level_text'],
                               'design_ref': P.get('design_ref', 'DESIGN.md section 4, ' + pid)},
             'level_note': P['level_note'],
-            'technique': P.get('technique', 'contract-based deductive verification (Verus) of functions extracted mechanically from /repo'),
+            'technique': P.get('technique') or technique_of(P),
         })
     na = []
     for pid in all_ids:
